@@ -28,7 +28,8 @@ Definition droppable (c : ctx) (x : expr) : bool := check x c && negb (keeps c).
 Definition lhs_ctx (b : bop) : ctx := match b with Pow => BLE | _ => BL end.
 (* hanging_lhs_context *)
 Definition hang_lhs_ctx (b : bop) : ctx := match b with Pow => BLE | _ => UB end.
-Definition starts_neg (e : expr) : bool := match e with Un Neg _ => true | _ => false end.
+(* the expression begins with a unary minus token (looking through type assertions, which are postfix) *)
+Fixpoint starts_neg (e : expr) : bool := match e with Un Neg _ => true | Assert a => starts_neg a | _ => false end.
 (* parenthesise_double_minus *)
 Definition guard (u : uop) (x : expr) : expr :=
   match u with Neg => if starts_neg x then Paren x else x | _ => x end.
